@@ -105,11 +105,13 @@ type Packet struct {
 
 // Program is a whole DSL text.
 type Program struct {
-	Name    string // identifier of the program inside the harness (family/index)
-	Opts    []Opt
-	NoOpts  bool // do not print an options block even if empty (default: print only when len(Opts)>0)
-	Meta    []*MetaBlock
-	Packets []*Packet
+	Name     string // identifier of the program inside the harness (family/index)
+	Opts     []Opt
+	NoOpts   bool // do not print an options block even if empty (default: print only when len(Opts)>0)
+	MetaLast bool // print the MetaData blocks after the packets (declaration order is free in the grammar)
+	OptsLast bool // print the options block last
+	Meta     []*MetaBlock
+	Packets  []*Packet
 	// Order in which top-level blocks are printed: default options, metadata, packets.
 	Notes []string
 }
@@ -280,50 +282,69 @@ func (p *Program) Tokens() []string {
 func (p *Program) TokensSpans() ([]string, Spans) {
 	sp := Spans{}
 	var t []string
-	if len(p.Opts) > 0 {
-		t = append(t, "options", "{")
-		for i, o := range p.Opts {
-			st := len(t)
-			t = append(t, o.Name, "=")
-			t = append(t, optValueToks(o.Value)...)
-			if o.Semi {
-				t = append(t, ";")
+	emitOpts := func() {
+		if len(p.Opts) > 0 {
+			t = append(t, "options", "{")
+			for i, o := range p.Opts {
+				st := len(t)
+				t = append(t, o.Name, "=")
+				t = append(t, optValueToks(o.Value)...)
+				if o.Semi {
+					t = append(t, ";")
+				}
+				sp[SpanKey{nil, i}] = [2]int{st, len(t) - 1}
 			}
-			sp[SpanKey{nil, i}] = [2]int{st, len(t) - 1}
+			t = append(t, "}")
 		}
-		t = append(t, "}")
 	}
-	for _, mb := range p.Meta {
-		bst := len(t)
-		t = append(t, "MetaData", mb.Name, "{")
-		for _, e := range mb.Entries {
-			st := len(t)
-			if e.Kind == MetaRef {
-				t = append(t, e.Ref, e.Name)
-			} else {
-				t = append(t, typeToks(e.Kind, e.Type, e.N, e.Alias)...)
-				t = append(t, e.Name)
+	emitMeta := func() {
+		for _, mb := range p.Meta {
+			bst := len(t)
+			t = append(t, "MetaData", mb.Name, "{")
+			for _, e := range mb.Entries {
+				st := len(t)
+				if e.Kind == MetaRef {
+					t = append(t, e.Ref, e.Name)
+				} else {
+					t = append(t, typeToks(e.Kind, e.Type, e.N, e.Alias)...)
+					t = append(t, e.Name)
+				}
+				if e.Doc != "" {
+					t = append(t, "`"+e.Doc+"`")
+				}
+				t = append(t, ",")
+				sp[SpanKey{e, -1}] = [2]int{st, len(t) - 1}
 			}
-			if e.Doc != "" {
-				t = append(t, "`"+e.Doc+"`")
-			}
-			t = append(t, ",")
-			sp[SpanKey{e, -1}] = [2]int{st, len(t) - 1}
+			t = append(t, "}")
+			sp[SpanKey{mb, -1}] = [2]int{bst, len(t) - 1}
 		}
-		t = append(t, "}")
-		sp[SpanKey{mb, -1}] = [2]int{bst, len(t) - 1}
 	}
-	for _, pk := range p.Packets {
-		st := len(t)
-		if pk.Root {
-			t = append(t, "root")
+	emitPackets := func() {
+		for _, pk := range p.Packets {
+			st := len(t)
+			if pk.Root {
+				t = append(t, "root")
+			}
+			t = append(t, "packet", pk.Name, "{")
+			for _, f := range pk.Fields {
+				t = fieldToks(t, f, sp)
+			}
+			t = append(t, "}")
+			sp[SpanKey{pk, -1}] = [2]int{st, len(t) - 1}
 		}
-		t = append(t, "packet", pk.Name, "{")
-		for _, f := range pk.Fields {
-			t = fieldToks(t, f, sp)
-		}
-		t = append(t, "}")
-		sp[SpanKey{pk, -1}] = [2]int{st, len(t) - 1}
+	}
+	if !p.OptsLast {
+		emitOpts()
+	}
+	if !p.MetaLast {
+		emitMeta()
+	}
+	emitPackets()
+	if p.MetaLast {
+		emitMeta()
+	}
+	if p.OptsLast {
+		emitOpts()
 	}
 	return t, sp
 }
